@@ -199,6 +199,17 @@ def run(report: Report, tier, seed):
     for b in tbad[:2]:
         report.violation(Violation(key=f"typesink:{b['job'][0]}:{b['job'][5]}:{b['job'][6:]}", what=f"type sink {b['job'][0]} <- {b['job'][5]} (in_sub={b['job'][6]}, v{b['job'][7]}, fp={b['job'][8]}): {b['problem']}"[:400],
                                    replay={"input": {"typesink": b["job"]}, "teal": b.get("teal")}, confirmed_native=True))
+    from . import recur_scenarios
+    rr = pool_map(recur_scenarios.case, recur_scenarios.jobs(tier))
+    rbad = [r for r in rr if r["problems"]]
+    report.bounded.append(Bounded(function="emitted TEAL of mutually / self recursive routines (spill sequences around callsub, frame cells) for every pair of routine kinds",
+                                  contract="stack and type discipline (spec/tealcheck, all clauses) and the value of the recurrence, under every (version, scratch_slots, frame_pointers) setting",
+                                  bound=f"{len(rr)} (caller kind, callee kind, kind of local, self/mutual) scenarios x versions 6..10 x 9 option settings", cases=sum(r["ran"] for r in rr),
+                                  distinct_nontrivial=len(rr), failures=len(rbad)))
+    for b in rbad[:2]:
+        p0 = b["problems"][0]
+        report.violation(Violation(key=f"recursion:{b['job']}:{p0.get('setting')}", what=f"recursion scenario {b['job']} at v{p0.get('version')} under (scratch_slots, frame_pointers)={p0.get('setting')}: {p0['what']}"[:400],
+                                   replay={"input": {"recursion": b["job"]}, "problems": [{k: v for k, v in p.items() if k != "teal"} for p in b["problems"][:3]]}, confirmed_native=True))
     bj = typesinks.body_jobs()
     with ProcessPoolExecutor(max_workers=16) as ex:
         br = list(ex.map(typesinks.body_case, bj, chunksize=4))
@@ -260,6 +271,11 @@ def replay(data):
         out = typesinks.case(tuple(nat["input"]["typesink"]))
         print(out["problem"])
         return 1 if out["problem"] else 0
+    if (nat.get("input") or {}).get("recursion"):
+        from . import recur_scenarios
+        out = recur_scenarios.case(tuple(nat["input"]["recursion"]))
+        print([{k: v for k, v in p.items() if k != "teal"} for p in out["problems"][:2]])
+        return 1 if out["problems"] else 0
     if (nat.get("input") or {}).get("bodysink"):
         from . import typesinks
         out = typesinks.body_case(tuple(nat["input"]["bodysink"]))
